@@ -11,8 +11,18 @@ from . import engine
 from rbql import rbql_engine  # noqa: E402
 
 
+WATCHDOG_S = 30
+
+
+class CrossThreadUse(BaseException):
+    pass
+
+
 class Scheduler(object):
     def __init__(self, choices):
+        self.owner = [None, None]
+        self.cross_thread = False
+        self.deadlock = False
         self.choices = list(choices)
         self.taken = []          # choices actually made at branching points
         self.go = [threading.Semaphore(0), threading.Semaphore(0)]
@@ -23,20 +33,26 @@ class Scheduler(object):
         self.started = [False, False]
 
     def yield_point(self, tid):
+        if threading.get_ident() != self.owner[tid]:
+            # an object of query `tid` is being used from the other query's thread: the queries are not isolated
+            self.cross_thread = True
+            raise CrossThreadUse('object of query %d used from the thread of the other query' % tid)
         self.steps[tid] += 1
         self.back.release()
-        self.go[tid].acquire()
+        if not self.go[tid].acquire(timeout=WATCHDOG_S):
+            raise CrossThreadUse('scheduler watchdog')
 
     def run(self, bodies):
         results = [None, None]
 
         def wrap(tid):
+            self.owner[tid] = threading.get_ident()
             self.go[tid].acquire()
             self.started[tid] = True
             try:
                 results[tid] = bodies[tid](tid)
-            except BaseException as e:   # pragma: no cover - bodies catch their own errors
-                results[tid] = {'harness_exception': repr(e)}
+            except BaseException as e:   # CrossThreadUse, or anything the body did not catch
+                results[tid] = {'escaped_exception': repr(e)}
             self.done[tid] = True
             self.back.release()
         threads = [threading.Thread(target=wrap, args=(i,), daemon=True) for i in range(2)]
@@ -55,9 +71,12 @@ class Scheduler(object):
                 self.both_midflight_switch = True
             last = pick
             self.go[pick].release()
-            self.back.acquire()
-        for t in threads:
-            t.join(5)
+            if not self.back.acquire(timeout=WATCHDOG_S):
+                self.deadlock = True     # a query blocked on an object of the other one: reported as a violation by the caller
+                break
+        if not self.deadlock:
+            for t in threads:
+                t.join(5)
         return results
 
 
@@ -145,6 +164,8 @@ def explore(spec0, spec1, root=(), limit=None):
     while prefix is not None:
         s = Scheduler(prefix)
         res = s.run([make_body(s, spec0), make_body(s, spec1)])
+        if s.deadlock or s.cross_thread:
+            res = [{'isolation_broken': 'deadlock' if s.deadlock else 'cross-thread use', 'partial': repr(res)[:300]}, res[1]]
         if len(s.taken) >= len(root) or not any(root[len(s.taken):]):
             yield s.taken, res, s.both_midflight_switch
             n += 1
